@@ -241,3 +241,50 @@ impl Words {
         align
     }
 }
+
+/// conditional-directive skeletons: every string over this 9-symbol alphabet up to a length
+pub const SKELETON: &[&str] = &["{$ifdef A}", "{$elseif B}", "{$else}", "{$endif}", "x;", "begin", "end", "(", ")"];
+pub struct Skeletons {
+    pub n: u32,
+}
+impl Skeletons {
+    pub fn len(&self) -> u64 {
+        count_upto(SKELETON.len() as u64, self.n)
+    }
+    pub fn get(&self, idx: u64, buf: &mut String) {
+        let mut toks = Vec::new();
+        decode_upto(idx, SKELETON.len() as u64, self.n, &mut toks);
+        buf.clear();
+        for (i, t) in toks.iter().enumerate() {
+            if i > 0 {
+                buf.push(if i % 2 == 0 { ' ' } else { '\n' });
+            }
+            buf.push_str(SKELETON[*t]);
+        }
+    }
+}
+
+/// scaling constructs for the polynomial-work clause: (name, builder(n))
+pub fn scaling_input(kind: usize, n: usize) -> String {
+    let rep = |s: &str, n: usize| s.repeat(n);
+    match kind {
+        0 => format!("x := {}a{};", rep("(", n), rep(")", n)),
+        1 => format!("x := {}b{};", rep("a(", n), rep(")", n)),
+        2 => format!("x := {}a{};", rep("[", n), rep("]", n)),
+        3 => format!("x: {}T{};", rep("A<", n), rep(">", n)),
+        4 => format!("{}x;{}", rep("begin ", n), rep(" end;", n)),
+        5 => format!("{}x;", rep("if a then ", n)),
+        6 => format!("{}x;{}", rep("case x of 1: ", n), rep(" end;", n)),
+        7 => format!("x := {}a;{};", rep("procedure begin ", n), rep(" end", n)),
+        8 => format!("{}x;{}", rep("{$ifdef A} ", n), rep(" {$endif}", n)),
+        9 => rep("{$ifdef A} x; {$else} y; {$endif}\n", n),
+        10 => format!("x := a{};", rep(" + a", n)),
+        11 => format!("f(a{});", rep(", a", n)),
+        12 => format!("uses a{};", rep(", a", n)),
+        13 => format!("x := a{};", rep(".b", n)),
+        14 => rep("{$ifdef A} begin {$else} end; {$endif}\n", n),
+        15 => format!("{}x;{}", rep("{$ifdef A} {$ifdef B} x; {$else} ", n), rep(" {$endif} {$endif}", n)),
+        _ => unreachable!(),
+    }
+}
+pub const SCALING_KINDS: usize = 16;
